@@ -413,8 +413,14 @@ func (x *Exec) writeTo(s *State, call *ast.CallExpr, wExpr ast.Expr, w, txt *Ter
 		if c == nil {
 			x.fail(call, "no contract for os.(*File).WriteString")
 		}
-		return x.callByContractNamed(s, c, "os.(*File).WriteString", []string{"f", "s"}, []*Term{w, txt}, []types.Type{wt, types.Typ[types.String]},
+		outs := x.callByContractNamed(s, c, "os.(*File).WriteString", []string{"f", "s"}, []*Term{w, txt}, []types.Type{wt, types.Typ[types.String]},
 			[]string{"n", "err"}, []string{SInt, SErr}, call)
+		if x.discardCall == call && len(outs) == 2 {
+			// the code ignores the error of this write: the analysis follows only the run in which it succeeds
+			s.assume(Eq(outs[1], V("err_nil", SErr)))
+			x.assumptions["a formatted write to a file whose error result the code discards (fmt.Fprintf in examineSnaps) is assumed to succeed"] = true
+		}
+		return outs
 	}
 	cur := x.getSt(s, "wbuf", arraySort(SRef, SStr))
 	x.setSt(s, "wbuf", Store(cur, w, catTerms(Select(cur, w), txt)))
